@@ -404,6 +404,15 @@ package plenccodec
 //@   assume 0 <= loadi64(ptr + 8) && loadi64(ptr + 8) <= loadi64(ptr + 16) && loadi64(ptr + 16) < (1 << 40)   # the target is a well-formed slice header
 //@   allocbound[C04] 2 * old(loadi64(ptr + 16)) + 8
 //@   ensures[C04,C05] err == nil ==> 0 <= n && n <= len(data)
+//@   # appending one element: the array grows exactly when it is full, every existing element is carried over
+//@   # (source and destination of the copy both have the old length), the new element is decoded into a cleared
+//@   # slot right behind them, and the length grows by one
+//@   ensures[C10,C12] old(loadi64(ptr + 8)) == old(loadi64(ptr + 16)) && old(loadi64(ptr + 8)) != 0 ==> called_typedslicecopy
+//@   ensures[C10,C12] called_typedslicecopy ==> call_typedslicecopy_arg1.Len == old(loadi64(ptr + 8)) && call_typedslicecopy_arg2.Len == old(loadi64(ptr + 8)) && call_typedslicecopy_arg2.Data == old(loadptr(ptr)) && call_typedslicecopy_arg1.Data == call_unsafe_NewArray_r0 && call_typedslicecopy_arg1.Cap > old(loadi64(ptr + 8))
+//@   ensures[C10,C12] err == nil ==> loadi64(ptr + 8) == old(loadi64(ptr + 8)) + 1 && loadi64(ptr + 8) <= loadi64(ptr + 16)
+//@   ensures[C10,C12] err == nil && !called_unsafe_NewArray ==> loadptr(ptr) == old(loadptr(ptr)) && loadi64(ptr + 16) == old(loadi64(ptr + 16))
+//@   ensures[C10,C12] err == nil && called_unsafe_NewArray ==> loadptr(ptr) == call_unsafe_NewArray_r0
+//@   ensures[C10,C12] called_Codec_Read ==> called_typedmemclr && call_typedmemclr_arg1 == call_Codec_Read_arg2
 
 //@ func plenccodec.ProtoSliceWrapper.Read
 //@   safety C04 C11
@@ -411,6 +420,15 @@ package plenccodec
 //@   assume 0 <= loadi64(ptr + 8) && loadi64(ptr + 8) <= loadi64(ptr + 16) && loadi64(ptr + 16) < (1 << 40)   # the target is a well-formed slice header
 //@   allocbound[C04] 2 * old(loadi64(ptr + 16)) + 8
 //@   ensures[C04,C05] err == nil ==> 0 <= n && n <= len(data)
+//@   # appending one element: the array grows exactly when it is full, every existing element is carried over
+//@   # (source and destination of the copy both have the old length), the new element is decoded into a cleared
+//@   # slot right behind them, and the length grows by one
+//@   ensures[C10,C12] old(loadi64(ptr + 8)) == old(loadi64(ptr + 16)) && old(loadi64(ptr + 8)) != 0 ==> called_typedslicecopy
+//@   ensures[C10,C12] called_typedslicecopy ==> call_typedslicecopy_arg1.Len == old(loadi64(ptr + 8)) && call_typedslicecopy_arg2.Len == old(loadi64(ptr + 8)) && call_typedslicecopy_arg2.Data == old(loadptr(ptr)) && call_typedslicecopy_arg1.Data == call_unsafe_NewArray_r0 && call_typedslicecopy_arg1.Cap > old(loadi64(ptr + 8))
+//@   ensures[C10,C12] err == nil ==> loadi64(ptr + 8) == old(loadi64(ptr + 8)) + 1 && loadi64(ptr + 8) <= loadi64(ptr + 16)
+//@   ensures[C10,C12] err == nil && !called_unsafe_NewArray ==> loadptr(ptr) == old(loadptr(ptr)) && loadi64(ptr + 16) == old(loadi64(ptr + 16))
+//@   ensures[C10,C12] err == nil && called_unsafe_NewArray ==> loadptr(ptr) == call_unsafe_NewArray_r0
+//@   ensures[C10,C12] called_Codec_Read ==> called_typedmemclr && call_typedmemclr_arg1 == call_Codec_Read_arg2
 
 //@ func plenccodec.*StructCodec.Read
 //@   safety C04 C11
@@ -420,6 +438,19 @@ package plenccodec
 //@   loop 1 invariant[C04] 0 <= offset && offset <= l && l == len(data)
 //@   loop 1 decreases[C03,C04] l - offset
 //@   ensures[C04,C05] err == nil ==> 0 <= n && n <= len(data)
+//@   # each iteration consumes exactly one field: the tag, then either the frame Skip reports for an unknown
+//@   # field (the next tag is read right behind it, so what follows never desynchronises) or what the
+//@   # field's codec consumed, behind the length prefix of a length-delimited field
+//@   loop 1 step[C03] called_Skip ==> offset == head_offset + call_ReadTag_r2 + call_Skip_r0
+//@   loop 1 step[C03,C01] called_Codec_Read && !called_ReadVarUint ==> offset == head_offset + call_ReadTag_r2 + call_Codec_Read_r0
+//@   loop 1 step[C03,C01] called_Codec_Read && called_ReadVarUint ==> offset == head_offset + call_ReadTag_r2 + call_ReadVarUint_r1 + call_Codec_Read_r0
+//@   # a known field is decoded by the codec recorded for its index, into the struct's field at the offset recorded
+//@   # for that index, with the wire type found in the data, from exactly the field's bytes
+//@   loop 1 step[C03,C01] called_Codec_Read ==> call_Codec_Read_arg0 == c.fieldsByIndex[call_ReadTag_r1].codec && call_Codec_Read_arg2 == ptr + c.fieldsByIndex[call_ReadTag_r1].offset && call_Codec_Read_arg3 == call_ReadTag_r0
+//@   loop 1 step[C03,C01] called_Codec_Read && called_ReadVarUint ==> len(call_Codec_Read_arg1) == int(call_ReadVarUint_r0)
+//@   loop 1 step[C03,C01] called_Codec_Read && !called_ReadVarUint ==> len(call_Codec_Read_arg1) == l - head_offset - call_ReadTag_r2
+//@   # an index without a codec is skipped, never decoded
+//@   loop 1 step[C03] called_Skip ==> !called_Codec_Read && (call_ReadTag_r1 >= len(c.fieldsByIndex) || c.fieldsByIndex[call_ReadTag_r1].codec == nil)
 
 //@ func plenccodec.*MapCodec.Read
 //@   safety C04 C11
@@ -433,6 +464,11 @@ package plenccodec
 //@   safety C04 C11 C10
 //@   stale k                                # k is scratch space from a pool: it may hold a previous entry's key
 //@   ensures[C04,C05] r1 == nil ==> 0 <= r0 && r0 <= len(data)
+//@   # presence: when the last tag read in the entry is the value field (index 2), the value codec decodes into the
+//@   # map slot - even when the value's body is empty (a pointer to a zero value is present, not nil)
+//@   ensures[C09,C01] r1 == nil && call_MapCodec_readTagAndLength_r2 == 2 ==> called_Codec_Read && call_Codec_Read_arg2 == call_mapassign_r0 && call_Codec_Read_arg0 == c.valueCodec
+//@   # merge by key: the slot found for the key is always written - decoded into, or overwritten with the zero value
+//@   ensures[C10,C09] r1 == nil && !(called_Codec_Read && call_Codec_Read_arg2 == call_mapassign_r0) ==> called_typedmemmove && call_typedmemmove_arg1 == call_mapassign_r0 && call_typedmemmove_arg2 == c.vZero
 
 //@ func plenccodec.*MapCodec.readTagAndLength
 //@   safety C04 C11
